@@ -1047,6 +1047,24 @@ def correspond_life(res, only=None):
                 life_histogram=hist, life_steps_observed=steps)
 
 
+def thread_affine(res):
+    """proxies of thread-affine referents (RLock, Condition) across the release of OTHER proxies by the
+    same client thread, with other clients connected in between: a real SyncManager against local twins
+    (harness/mgr_affine_driver.py)"""
+    outs = core.run_driver('mgr_affine_driver.py', dict(), timeout=200)
+    for r in outs:
+        diff = [(a, b) for a, b in zip(r['proxy'], r['local']) if a[:2] != b[:2]]
+        stuck = [x for x in r['proxy'] if x[0] == 'other-thread-acquires' and x[2] != '[True]']
+        if diff or stuck:
+            a, b = (diff[0] if diff else (stuck[0], ['other-thread-acquires', 'ok', '[True]']))
+            res.alarms.append(dict(signature='C20:proxy-operation-differs-from-local-object-after-another-proxy-was-released',
+                                   what='%s held through its proxy, the same thread releases an unrelated proxy (%d other clients connected): '
+                                        '%s gives %s through the proxy and %s on the local object'
+                                        % (r['kind'], r['other_clients'], a[0], a[1:], b[1:]),
+                                   replay=dict(mode='affine', case=dict(kind=r['kind'], other_clients=r['other_clients']), impl=r)))
+    res.add_cov(evaluations=len(outs), traces=len(outs), affine_scenarios=len(outs))
+
+
 def run(res):
     import time
     phases = {}
@@ -1069,6 +1087,7 @@ def run(res):
     late += timed('procs', correspond_procs, res, 25) if res.tier != 'quick' else \
         timed('procs', correspond_procs, res, 0, only=[SPAWN_CASE, SPAWN_AUTO_CASE, KILL_CASE])
     timed('life', correspond_life, res)
+    timed('affine', thread_affine, res)
     # "each single operation from concurrent clients takes effect atomically": real client processes and
     # threads hammering one referent through its proxy (props/c20conc.py, harness/mgr_conc_driver.py)
     timed('conc', c20conc.correspond_conc, res)
@@ -1121,6 +1140,15 @@ def replay(path):
     if rp['mode'] == 'conc':
         print('signature:', d.get('signature'))
         return c20conc.replay_conc(c)
+    if rp['mode'] == 'affine':
+        bad = 0
+        for r in core.run_driver('mgr_affine_driver.py', dict(kinds=[c['kind']]), timeout=200):
+            if r['other_clients'] != c['other_clients']:
+                continue
+            for a, b in zip(r['proxy'], r['local']):
+                print(a, '| local:', b)
+                bad += a[:2] != b[:2]
+        return 1 if bad else 0
     out = core.run_driver('mgr_driver.py', dict(mode=rp['mode'], cases=[c]), timeout=900)[0]
     print('signature:', d.get('signature'))
     print('case:', json.dumps(c))
